@@ -74,3 +74,7 @@ claim("C14", "evloop", "exploration",
 claim("C13", "evloop", "fault_enumeration",
       "For every pipeline point (existing-bid query, group fetch, attribute-signature check, reservation, pricing, bid broadcast) in flight and for the waiting state, each of {order closed, lease won, lease lost, shutdown, bid timeout, unrelated event} is injected as the stepped loop's only ready input and the in-flight step is then released with success or failure; plus every single step failure, ineligibility, price at/above the maximum and existing bid found / not found (170 deterministic scenarios, each on a fresh real order), plus free-running randomized schedules. The scripted call log is judged at termination: <=1 create-bid, price <= order maximum, bid only after a successful reservation; if not won, every successful reservation released and a close-bid submitted for any placed or pre-existing bid; the order terminates.",
       EVLOOP_NOTE, "fault/event injection at every pipeline point of the stepped real loop; call-log monitor; race detector auxiliary", "DESIGN.md §5 C13")
+
+claim("C20", "evloop", "exploration",
+      "All enabled sequences over {lease won, lease removed, submit a manifest matching the on-chain version / another version / other resources, version update, chain fetch ok / error, deployment closed} up to length 4 (quick: 3 510 sequences) / 5 (thorough), plus longer random sequences, each on a fresh real manifest.manager stepped one message at a time with a scripted chain fetch. Replies are collected on reply channels of capacity 4 (a second reply is observable), ManifestReceived events by an independent bus subscriber flushed with a marker after every step; judged against a reference model: exactly one reply per submission, none outstanding when idle, announcements only with a lease, after the fetch, of a validated manifest and the latest one, acceptance implies the announcement of that hash.",
+      EVLOOP_NOTE, "systematic schedule enumeration of the real event loop via loop-top hook; reply/announcement trace checked against a reference model", "DESIGN.md §5 C20")
